@@ -381,7 +381,7 @@ def compute(fn, i):
     if fn == 'eip712': return eip712(i)
     if fn == 'classify_integer':
         c = classify_integer(json.loads(i, parse_int=Lit, parse_float=Lit, object_pairs_hook=Obj))
-        return 'reject' if c == 'reject' else [c[0], ('-' if c[1] else '') + ('huge' if c[2] == 'huge' or c[2].bit_length() > 290 else str(c[2]))]
+        return 'reject' if c == 'reject' else [c[0], ('-' if c[1] else '') + ('huge' if c[2] == 'huge' or c[2].bit_length() > 256 else str(c[2]))]
     if fn == 'classify_path': return classify_path(i)
     if fn == 'classify_signature': return classify_signature(i)
     if fn == 'classify_hex_text': return classify_hex_text(i)
